@@ -29,7 +29,9 @@ type c11key struct {
 
 func (k c11key) Sum() uint64 { return k.sum }
 
-var c11keys = []c11key{{0, 0}, {1, 64}, {2, 1}, {3, 0}} // k0 and k1 share shard 0; k3 has the very same Sum() as k0 (a full hash collision: the keys still differ)
+var c11keys = []c11key{{0, 0}, {1, 64}, {2, 1}, {3, 0},
+	// nine more keys of shard 0 (scenarios with shards of 16 entries)
+	{4, 128}, {5, 192}, {6, 256}, {7, 320}, {8, 384}, {9, 448}, {10, 512}, {11, 576}, {12, 640}} // k0 and k1 share shard 0; k3 has the very same Sum() as k0 (a full hash collision: the keys still differ)
 
 type c11op struct {
 	thread     int
@@ -94,6 +96,18 @@ func (s *c11sys) do(th int, name string) {
 		store(2, c11Far)
 	case "store3":
 		store(3, c11Far)
+	case "storeShortMany":
+		// nine short-lived entries in shard 0 (one op per entry in the history)
+		for k := 4; k <= 12; k++ {
+			if k > 4 {
+				s.seq++
+				o.end = s.seq
+				o = &c11op{thread: th, kind: name}
+				s.seq++
+				o.begin, o.at = s.seq, vs.Elapsed()
+			}
+			store(k, c11Short)
+		}
 	case "flush":
 		s.ops = append(s.ops, o)
 		s.c.Flush()
@@ -132,12 +146,16 @@ func c11ScenarioX(name string, pre []string, progs [][][]string, post []string, 
 }
 
 var c11pre, c11post = map[string][]string{}, map[string][]string{}
+var c11big = map[string]bool{}
 
 func c11Scenario(name string, progs [][][]string, d int, prefill bool) vr.Scenario {
 	threads := len(progs)
 	var sys *c11sys
 	body := func() {
 		s := &c11sys{size: 64}
+		if c11big[name] {
+			s.size = 1024 // 16 entries per shard
+		}
 		sys = s
 		// one entry per shard, so that k0 / k1 (same shard) exercise eviction;
 		// built by hand because New() enforces the minimum size of 1024
@@ -233,13 +251,21 @@ func c11Scenario(name string, progs [][][]string, d int, prefill bool) vr.Scenar
 		}
 		// the harness cache holds one entry per shard; k0 and k1 live in shard 0, k2 in shard 1
 		capBound := func(before int) int {
-			sh := map[uint64]bool{}
+			sh := map[uint64]map[int]bool{}
 			for _, o := range s.ops {
 				if o.kind == "store" && o.begin < before {
-					sh[c11keys[o.key].sum%64] = true
+					i := c11keys[o.key].sum % 64
+					if sh[i] == nil {
+						sh[i] = map[int]bool{}
+					}
+					sh[i][o.key] = true
 				}
 			}
-			return len(sh)
+			n := 0
+			for _, ks := range sh {
+				n += min(len(ks), s.size/64)
+			}
+			return n
 		}
 		for _, o := range s.ops {
 			switch o.kind {
@@ -287,8 +313,13 @@ func TestVerifC11(t *testing.T) {
 		// two lookups race on an entry that has expired, then the shard is refilled: capacity must still hold
 		c11ScenarioX("expired-get-get-then-refill", []string{"storeShort0", "advance2s"}, []m{{{"get0", "get3"}}, {{"get0", "gc", "flush"}}}, []string{"storeA0", "store1", "len", "store3", "range", "len"}, 3),
 	}
+	// a sweep / dump walk over a shard in which most entries have expired, against a writer of a live key of that shard
+	c11big["sweep-many-expired-vs-writer"] = true
+	sweep := c11ScenarioX("sweep-many-expired-vs-writer", []string{"storeShortMany", "storeA0", "advance2s"},
+		[]m{{{"gc", "range"}}, {{"storeA0", "flush", "store1"}, {"get0"}}}, []string{"get0", "get1", "range"}, 1)
+	scs = append(scs, sweep)
 	if e.Tier == "thorough" {
-		scs = []vr.Scenario{
+		scs = []vr.Scenario{sweep,
 			c11Scenario("point2-point2", []m{{P, P}, {P, P}}, 3, false),
 			c11Scenario("point2-point1-prefilled", []m{{P, P}, {P}}, 4, true),
 			c11Scenario("point1-point1-point1-prefilled", []m{{P}, {P}, {P}}, 3, true),
